@@ -49,7 +49,7 @@ Definition unimg_all (i : N) : cmd := CImageErase i None.
 Inductive c01_case :=
   Hist (h w : N) (widths : list (N * N)) (isizes : list (N * (N * N)))
        (fsp fer : list (N * N)) (ers : list N)
-       (ops : list op) (impl : list (list cmd)) (overlap : bool).
+       (ops : list op) (impl : list (list cmd)) (ovl_ii ovl_wi ovl_ww : bool).
 
 Definition cmd_eqb (a b : cmd) : bool :=
   match a, b with
@@ -69,15 +69,21 @@ Definition drawn_surfaces (ops : list op) : list (grid cell) :=
 
 Definition c01_check (k : c01_case) : bool * bool :=
   match k with
-  | Hist hN wN widths isizes fsp fer ers ops impl overlap =>
+  | Hist hN wN widths isizes fsp fer ers ops impl oii owi oww =>
       let h := N.to_nat hN in
       let w := N.to_nat wN in
       let o := mk_oracle widths isizes fsp fer ers in
       let surfs := drawn_surfaces ops in
       let dom := forallb (in_domain o h w) surfs in
       let ovl := negb (forallb (overlap_free o h w) surfs) in
+      let kinds := map (overlap_kinds o h w) surfs in
+      let any := fun (sel : bool * bool * bool -> bool) => dom && existsb sel kinds in
       ( list_eqb (list_eqb cmd_eqb) (rrun o (rnew h w false) ops) impl
-        && Bool.eqb overlap (dom && ovl),
+        (* the harness's class tags are the Coq-side classes, and together they are exactly Overlap *)
+        && Bool.eqb oii (any (fun k => fst (fst k)))
+        && Bool.eqb owi (any (fun k => snd (fst k)))
+        && Bool.eqb oww (any (fun k => snd k))
+        && Bool.eqb (oii || owi || oww) (dom && ovl),
         (* outside the property's domain (zero-width characters, a wide character in the
            last column, empty images) only the agreement of model and code is checked *)
         negb dom || spec_run o h w (blank_screen h w) (gmake h w cell_default) ops impl )
